@@ -127,6 +127,10 @@ pub fn shrink_report(run: &Run, p: Prof, op: Op, s: &str) {
     sc.frozen = true;
     if let Err(v) = check_pipe(run, p, op, &t, &mut sc) {
         run.violate(v);
+    } else if let Err(v) = check_pipe(run, p, op, s, &mut Local::scratch()).map(|_| ()) {
+        // the shrunk copy (a freshly allocated String) passes: the failure depends on the argument as it was handed over (e.g. the
+        // address of a &str view); reported as found
+        run.violate(v);
     }
 }
 
@@ -950,6 +954,67 @@ pub fn pairs_at_block_cuts(compat: bool) -> Vec<String> {
                     v.push(format!("{lead}{}{a}{b}{}", "a".repeat(target - used), "a".repeat(100)));
                 }
             }
+        }
+    }
+    v
+}
+
+/// every payload behind 0..=40 ASCII letters, in front of two tails, handed over as a view that starts 0..=15 bytes after an allocation
+/// boundary (all 16 pointer residues for every content offset): word-at-a-time fast paths whose head / first word depends on the ADDRESS
+/// of the argument
+pub fn pointer_offset_sweep(run: &Run, payloads: &[&str], f: &(dyn Fn(&str, &mut Local) -> Check + Sync)) {
+    run.par("pointer_offset_sweep", true, |tid, n, l| {
+        let mut buf = String::new();
+        let mut idx = 0usize;
+        for p in payloads {
+            for k in 0..=40usize {
+                for tail in ["", "abcdefghijklmnopqrstuvwxyz0123456789ABCDEFGHIJKLMNOPQRSTUVWXYZ"] {
+                    idx += 1;
+                    if idx % n != tid {
+                        continue;
+                    }
+                    if run.stopped() {
+                        return;
+                    }
+                    let s = format!("{}{p}{tail}", &"abcdefghijklmnopqrstuvwxyzabcdefghijklmnopqrstuvwxyz"[..k]);
+                    for m in 0..16usize {
+                        l.cases += 1;
+                        let view = view_at(&mut buf, &s, m);
+                        if let Err(mut v) = f(view, l) {
+                            // reported as found: a copy of the text into a fresh String would be aligned again
+                            v.case["argument_view"] = json!({"bytes_after_allocation_start": m, "note": "the argument is a &str view into a larger buffer: m filler bytes, the text, two more bytes"});
+                            run.violate(v);
+                            return;
+                        }
+                    }
+                }
+            }
+        }
+    });
+}
+
+/// the MIDDLE DOT pattern l·l with each 'l' replaced by every character whose lowercase NFKC form is "l" (capital, fullwidth, script and
+/// mathematical L, roman numeral fifty ...), and U+0140 / U+013F (l / L with middle dot) in front of them: contextual patterns that only
+/// come into being, or cease to hold, after case mapping / compatibility normalisation
+pub fn respelled_middle_dot_strings() -> Vec<String> {
+    let mut ls: Vec<char> = Vec::new();
+    for cp in 0x41u32..0x1f200 {
+        if let Some(c) = char::from_u32(cp) {
+            let s = c.to_string();
+            if ref_lower(&crate::ucd::nfkc_icu(&ref_lower(&s))) == "l" {
+                ls.push(c);
+            }
+        }
+    }
+    let mut v = Vec::new();
+    for x in &ls {
+        for y in &ls {
+            v.push(format!("{x}\u{b7}{y}"));
+        }
+        for dot in ['\u{140}', '\u{13f}'] {
+            v.push(format!("{dot}{x}"));
+            v.push(format!("a{dot}{x}b"));
+            v.push(format!("{x}{dot}"));
         }
     }
     v
